@@ -53,7 +53,7 @@ def converge_real(n: int) -> bool:
     pre: 0 <= n < len(TABLE) and _n_ok(n)
     post: _
     """
-    n = conc_bits(n, 17)
+    n = conc_bits(n, len(TABLE).bit_length())
     with NoTracing():
         return V(real_schedule(n) == "")
 
